@@ -22,7 +22,7 @@ RULE = (
     "raw = x + m*s; NONE -> raw; TRUNCATE -> clip; MIRROR -> raw if inside, the single reflection if it lands inside, "
     "otherwise the folded value or a bound value is required. Checked on the evaluator rows and on reported perturbed_variables; the injected sampler returns the same stored array on every call and a second evaluation on the same evaluator must reproduce the first. "
     "Plus: three injected samplers with distinct designs and EVERY assignment of sampler ids to the variables (ids may skip "
-    "one) x boundary types: each variable is perturbed by its assigned sampler; three variables with EVERY assignment of "
+    "one) x boundary types: each variable is perturbed by its assigned sampler; three variables with EVERY assignment over {no sampler, 0, 1, 2}; a variable with coinciding bounds and a relative magnitude is not moved; three variables with EVERY assignment of "
     "absolute / relative types and distinct magnitudes and ranges, also with ONE validated GradientConfig object reused by "
     "two configurations with different bounds. Every case is non-trivial."
 )
@@ -319,6 +319,15 @@ def run_shard(shard: dict[str, Any]) -> core.ShardResult:
             for btypes in itertools.product((1, 2, 3), repeat=2):
                 case = {"multi": True, "assign": list(assign), "btypes": list(btypes)}
                 rec.add(("multi", assign, btypes), case, judge_multi(case))
+        for assign in itertools.product((-1, 0, 1, 2), repeat=3):
+            if all(a < 0 for a in assign):
+                continue
+            case = {"multi3": True, "assign": list(assign)}
+            rec.add(("multi3", assign), case, judge_multi3(case))
+        for btype in (1, 2, 3):
+            for where in (0, 1):
+                case = {"point": True, "btype": btype, "where": where}
+                rec.add(("point", btype, where), case, judge_point(case))
         return rec.finish()
     a = shard["a"]
     n = len(SETTINGS)
@@ -331,7 +340,75 @@ def run_shard(shard: dict[str, Any]) -> core.ShardResult:
     return rec.finish()
 
 
+DESIGNS3V = [[[1.0, 2.0, -1.5], [-0.5, 0.25, 0.75], [3.0, -1.0, 0.5]], [[0.5, -4.0, 1.25], [2.0, 1.0, -0.25], [-1.0, 0.75, 2.5]],
+             [[-2.0, 0.125, 1.0], [0.25, 3.0, -3.0], [1.5, -0.5, 0.375]]]
+
+
+def judge_multi3(case: dict[str, Any]) -> Judgement:
+    """Three variables, three injected samplers, EVERY assignment over {-1 (no sampler), 0, 1, 2}; boundary type NONE."""
+    from ropt.ensemble_evaluator import EnsembleEvaluator
+    from ropt.results import GradientResults
+
+    j = Judgement()
+    assign = case["assign"]
+    x, mags = [0.5, -0.25, 1.0], [0.5, 0.25, 0.125]
+    config_dict = {
+        "variables": {"initial_values": x},
+        "gradient": {"number_of_perturbations": 3, "perturbation_magnitudes": mags, "boundary_types": 1, "samplers": assign},
+        "samplers": [{"method": "verif/design", "options": {"design": [[row[v] for v in range(3) if assign[v] == k] for row in DESIGNS3V[k]]},
+                      "shared": True} for k in range(3)],
+    }
+    try:
+        config = validate(config_dict)
+        manager, _ = make_manager()
+        evaluator = TableEvaluator(lambda xx, r: [float(xx.sum())], 1, 0)
+        results = EnsembleEvaluator(config, None, evaluator, manager).calculate(np.array(x), compute_functions=True, compute_gradients=True)
+    except Exception as exc:  # noqa: BLE001
+        j.fail(f"multi-sampler-run-raised:{type(exc).__name__}", message=str(exc)[:200], assign=assign)
+        return j
+    reported = np.asarray(next(item for item in results if isinstance(item, GradientResults)).evaluations.perturbed_variables)[0]
+    for name, mat in (("evaluator-rows", evaluator.calls[0].variables[1:]), ("reported", reported)):
+        for k in range(3):
+            for v in range(3):
+                exp = x[v] + (mags[v] * DESIGNS3V[assign[v]][k][v] if assign[v] >= 0 else 0.0)
+                if float(mat[k, v]) != exp:
+                    j.fail("perturbation-not-from-the-assigned-sampler:three-variables", where=name, assign=assign, variable=v,
+                           observed=float(mat[k, v]), expected=exp)
+                    return j
+    j.outcome = f"multi3:{sum(1 for a in assign if a < 0)}-unassigned"
+    return j
+
+
+def judge_point(case: dict[str, Any]) -> Judgement:
+    """A variable whose bounds coincide, with a RELATIVE magnitude: the range is zero, so it is not perturbed at all."""
+    from ropt.ensemble_evaluator import EnsembleEvaluator
+    from ropt.results import GradientResults
+
+    j = Judgement()
+    btype, where = case["btype"], case["where"]
+    x = [1.5, 0.5]
+    lower, upper = ([1.5, -1.0], [1.5, 2.0]) if where == 0 else ([-1.0, 0.5], [4.0, 0.5])
+    config = validate({
+        "variables": {"initial_values": x, "lower_bounds": lower, "upper_bounds": upper},
+        "gradient": {"number_of_perturbations": 3, "perturbation_magnitudes": [0.25, 0.25], "perturbation_types": [2, 2], "boundary_types": btype},
+        "samplers": [{"method": "verif/design", "options": {"design": [[1.0, -1.0], [0.5, 2.0], [-3.0, 0.25]]}, "shared": True}],
+    })
+    manager, _ = make_manager()
+    evaluator = TableEvaluator(lambda xx, r: [float(xx.sum())], 1, 0)
+    results = EnsembleEvaluator(config, None, evaluator, manager).calculate(np.array(x), compute_functions=True, compute_gradients=True)
+    reported = np.asarray(next(item for item in results if isinstance(item, GradientResults)).evaluations.perturbed_variables)[0]
+    for name, mat in (("evaluator-rows", evaluator.calls[0].variables[1:]), ("reported", reported)):
+        if np.any(mat[:, where] != x[where]):
+            j.fail("relative-perturbation-of-a-zero-width-range-moves-the-variable", where=name, btype=btype, observed=mat[:, where], expected=x[where])
+    j.outcome = f"point:{btype}:{where}"
+    return j
+
+
 def run_case(case: dict[str, Any]) -> Judgement:
+    if case.get("multi3"):
+        return judge_multi3(case)
+    if case.get("point"):
+        return judge_point(case)
     if case.get("multi"):
         return judge_multi(case)
     if case.get("v3"):
